@@ -1,10 +1,11 @@
 /-!
 # IEEE-754 / SMT-LIB FloatingPoint reference (soft-float over exact integers and rationals)
 
-A float of format `f` is its bit pattern (`Nat < 2^(eb+sb)`).  A finite value is `(-1)^neg * m * 2^e` with `m : Nat`,
-`e : Int` — arithmetic is carried out exactly on such values (sums and products are dyadic, quotients are kept as
-`num/den`, square roots as an integer root plus a sticky bit) and rounded ONCE by `roundMag` in the requested SMT-LIB
-rounding mode.  Everything is structural / closed-form so that the kernel can evaluate it (`decide`).
+A float of format `f` is its bit pattern (`Nat < 2^(eb+sb)`).  Every finite value of the format is an integer multiple
+of `2^-q` with `q = bias + sb - 2` (the smallest subnormal): `sval f mag` is that integer, so the real value of a finite
+magnitude is `sval f mag / 2^q`.  Arithmetic is carried out exactly on these integers (sums are integers, products and
+quotients are fractions `sc/den` in units of `2^-q`, square roots an integer root plus a sticky bit) and rounded ONCE by
+`roundScaled` in the requested SMT-LIB rounding mode.  Only `Nat` arithmetic, closed-form, so the kernel can evaluate it.
 
 Magnitude encoding: the low `eb+sb-1` bits of a pattern, read as a natural number `mag`, order the non-negative floats
 (`mag` = biased exponent * 2^(sb-1) + trailing significand); `mag + 1` is the next float; `infMag` is infinity.
@@ -58,14 +59,16 @@ def expOf (f : Fmt) (mag : Nat) : Int :=
   let E := mag / 2 ^ f.mbits
   (max E 1 : Nat) - ((f.bias + f.mbits : Nat) : Int)
 
-/-! ## rounding a positive rational to a magnitude -/
+/-- all finite values are integer multiples of `2^-q` -/
+def Fmt.q (f : Fmt) : Nat := f.bias + f.mbits - 1
 
-/-- `floor (log2 (num/den))` for `num, den > 0` -/
-def ilog2 (num den : Nat) : Int :=
-  let e0 : Int := (num.log2 : Int) - (den.log2 : Int)
-  -- num/den ≥ 2^e0 ?
-  let ge : Bool := if e0 ≥ 0 then decide (num ≥ den * 2 ^ e0.toNat) else decide (num * 2 ^ (-e0).toNat ≥ den)
-  if ge then e0 else e0 - 1
+/-- the value of a finite magnitude in units of `2^-q`: `sigOf * 2^(max E 1 - 1)` -/
+def sval (f : Fmt) (mag : Nat) : Nat := sigOf f mag * 2 ^ (mag / 2 ^ f.mbits - 1)
+
+/-- largest `floor(log2 (value * 2^q))` of a finite value -/
+def Fmt.lgMax (f : Fmt) : Nat := 2 * f.bias + f.mbits - 1
+
+/-! ## rounding a positive rational to a magnitude -/
 
 /-- does the discarded part `rem/dd` (0 ≤ rem < dd) round the kept integer `m` up? -/
 def roundUp (rm : RM) (neg : Bool) (mOdd : Bool) (rem dd : Nat) : Bool :=
@@ -85,42 +88,35 @@ def overflowMag (f : Fmt) (rm : RM) (neg : Bool) : Nat :=
   | .RTN => if neg then f.infMag else f.maxMag
   | .RTZ => f.maxMag
 
-/-- quotient and remainder of `num/den` at the quantum `2^qe`: `num/den = (m + rem/dd) * 2^qe` -/
-def scaleDiv (num den : Nat) (qe : Int) : Nat × Nat × Nat :=
-  if qe ≥ 0 then
-    let dd := den * 2 ^ qe.toNat
-    (num / dd, num % dd, dd)
+/-- Round the positive rational `x = (sc/den) * 2^-q` (`sc, den > 0`), carrying sign `neg`, to a magnitude of `f`.
+`lg = max (floor (log2 (sc/den))) mbits`; `sh = lg - mbits` is the exponent of the quantum (in units of `2^-q`) and at the
+same time the biased exponent minus one (0 for subnormals); `m` is the integer significand, `rem/dd` the discarded part. -/
+def roundScaled (f : Fmt) (rm : RM) (neg : Bool) (sc den : Nat) : Nat :=
+  let lg := max (Nat.log2 (sc / den)) f.mbits
+  if lg > f.lgMax then overflowMag f rm neg
   else
-    let nn := num * 2 ^ (-qe).toNat
-    (nn / den, nn % den, den)
-
-/-- round the positive rational `num/den` (`num, den > 0`), carrying sign `neg`, to a magnitude of format `f` -/
-def roundMag (f : Fmt) (rm : RM) (neg : Bool) (num den : Nat) : Nat :=
-  let e := ilog2 num den
-  if e > f.emax then overflowMag f rm neg
-  else
-    let ee : Int := max e f.emin
-    let qe : Int := ee - (f.mbits : Int)
-    let (m, rem, dd) := scaleDiv num den qe
+    let sh := lg - f.mbits
+    let dd := den * 2 ^ sh
+    let m := sc / dd
+    let rem := sc % dd
     let m' := if roundUp rm neg (m % 2 == 1) rem dd then m + 1 else m
-    (ee - f.emin).toNat * 2 ^ f.mbits + m'
+    sh * 2 ^ f.mbits + m'
 
-/-- round `(-1)^neg * num/den`; zero keeps the given sign -/
-def roundRat (f : Fmt) (rm : RM) (neg : Bool) (num den : Nat) : Nat :=
-  if num = 0 then mkBits f neg 0 else mkBits f neg (roundMag f rm neg num den)
+/-- round `(-1)^neg * (sc/den) * 2^-q`; zero keeps the given sign -/
+def roundS (f : Fmt) (rm : RM) (neg : Bool) (sc den : Nat) : Nat :=
+  if sc = 0 then mkBits f neg 0 else mkBits f neg (roundScaled f rm neg sc den)
 
-/-- round `(-1)^neg * m * 2^e` -/
-def roundDyadic (f : Fmt) (rm : RM) (neg : Bool) (m : Nat) (e : Int) : Nat :=
-  if e ≥ 0 then roundRat f rm neg (m * 2 ^ e.toNat) 1 else roundRat f rm neg m (2 ^ (-e).toNat)
+/-- round the rational `(-1)^neg * num/den` -/
+def roundRat (f : Fmt) (rm : RM) (neg : Bool) (num den : Nat) : Nat := roundS f rm neg (num * 2 ^ f.q) den
 
 /-! ## operations -/
 
 def neg (f : Fmt) (a : Nat) : Nat := if signOf f a then magOf f a else f.signBit + magOf f a
 def abs (f : Fmt) (a : Nat) : Nat := magOf f a
 
-/-- signed integer `S` with `value a = S * 2^(expOf a)` for finite `a` -/
+/-- signed value of a finite pattern in units of `2^-q` -/
 def sintOf (f : Fmt) (a : Nat) : Int :=
-  if signOf f a then -(sigOf f (magOf f a) : Int) else (sigOf f (magOf f a) : Int)
+  if signOf f a then -(sval f (magOf f a) : Int) else (sval f (magOf f a) : Int)
 
 def add (f : Fmt) (rm : RM) (a b : Nat) : Nat :=
   if isNaN f a || isNaN f b then f.nanBits
@@ -128,15 +124,12 @@ def add (f : Fmt) (rm : RM) (a b : Nat) : Nat :=
     (if isInf f b && signOf f a != signOf f b then f.nanBits else mkBits f (signOf f a) f.infMag)
   else if isInf f b then mkBits f (signOf f b) f.infMag
   else
-    let ea := expOf f (magOf f a)
-    let eb := expOf f (magOf f b)
-    let e := min ea eb
-    let S : Int := sintOf f a * 2 ^ (ea - e).toNat + sintOf f b * 2 ^ (eb - e).toNat
+    let S : Int := sintOf f a + sintOf f b
     if S = 0 then
       -- exact zero: same-signed operands keep the sign, otherwise +0 (−0 when rounding toward −∞)
       if signOf f a == signOf f b then mkBits f (signOf f a) 0
       else mkBits f (decide (rm = .RTN)) 0
-    else roundDyadic f rm (decide (S < 0)) S.natAbs e
+    else roundS f rm (decide (S < 0)) S.natAbs 1
 
 def sub (f : Fmt) (rm : RM) (a b : Nat) : Nat :=
   if isNaN f b then f.nanBits else add f rm a (neg f b)
@@ -146,10 +139,7 @@ def mul (f : Fmt) (rm : RM) (a b : Nat) : Nat :=
   if isNaN f a || isNaN f b then f.nanBits
   else if isInf f a || isInf f b then
     (if isZero f a || isZero f b then f.nanBits else mkBits f s f.infMag)
-  else
-    let m := sigOf f (magOf f a) * sigOf f (magOf f b)
-    if m = 0 then mkBits f s 0
-    else roundDyadic f rm s m (expOf f (magOf f a) + expOf f (magOf f b))
+  else roundS f rm s (sval f (magOf f a) * sval f (magOf f b)) (2 ^ f.q)
 
 def div (f : Fmt) (rm : RM) (a b : Nat) : Nat :=
   let s := signOf f a != signOf f b
@@ -157,10 +147,7 @@ def div (f : Fmt) (rm : RM) (a b : Nat) : Nat :=
   else if isInf f a then (if isInf f b then f.nanBits else mkBits f s f.infMag)
   else if isInf f b then mkBits f s 0
   else if isZero f b then (if isZero f a then f.nanBits else mkBits f s f.infMag)
-  else if isZero f a then mkBits f s 0
-  else
-    let d : Int := expOf f (magOf f a) - expOf f (magOf f b)
-    roundRat f rm s (sigOf f (magOf f a) * 2 ^ d.toNat) (sigOf f (magOf f b) * 2 ^ (-d).toNat)
+  else roundS f rm s (sval f (magOf f a) * 2 ^ f.q) (sval f (magOf f b))
 
 def sqrt (f : Fmt) (rm : RM) (a : Nat) : Nat :=
   if isNaN f a then f.nanBits
@@ -168,25 +155,13 @@ def sqrt (f : Fmt) (rm : RM) (a : Nat) : Nat :=
   else if signOf f a then f.nanBits
   else if isInf f a then mkBits f false f.infMag
   else
-    let m0 := sigOf f (magOf f a)
-    let e0 := expOf f (magOf f a)
-    -- make the exponent even, then widen by 2k bits so that the integer root has at least sb+2 bits
-    let odd := e0 % 2 != 0
-    let m1 := if odd then 2 * m0 else m0
-    let e1 : Int := if odd then e0 - 1 else e0
+    -- sqrt(value) * 2^q = sqrt(sval * 2^q); widen by 2k bits so that the integer root has more than sb+2 bits
     let k := f.sb + 2
-    let n := m1 * 4 ^ k
+    let n := sval f (magOf f a) * 2 ^ f.q * 4 ^ k
     let r := Nat.sqrt n
     let sticky := if r * r = n then 0 else 1
-    -- sqrt = (r + δ) * 2^(e1/2 - k), 0 ≤ δ < 1; one more bit carries "δ > 0"
-    roundDyadic f rm false (2 * r + sticky) (e1 / 2 - (k : Int) - 1)
-
-/-- three-way comparison of two finite values -/
-def cmpFinite (f : Fmt) (a b : Nat) : Ordering :=
-  let ea := expOf f (magOf f a)
-  let eb := expOf f (magOf f b)
-  let e := min ea eb
-  compare (sintOf f a * 2 ^ (ea - e).toNat) (sintOf f b * 2 ^ (eb - e).toNat)
+    -- sqrt = (r + δ) / 2^k with 0 ≤ δ < 1; one more bit carries "δ > 0"
+    roundS f rm false (2 * r + sticky) (2 ^ (k + 1))
 
 /-- comparison of two non-NaN values (infinities included) -/
 def cmp (f : Fmt) (a b : Nat) : Ordering :=
@@ -194,7 +169,7 @@ def cmp (f : Fmt) (a b : Nat) : Ordering :=
     (if isInf f b then compare (if signOf f a then (0 : Nat) else 1) (if signOf f b then 0 else 1)
      else if signOf f a then .lt else .gt)
   else if isInf f b then (if signOf f b then .gt else .lt)
-  else cmpFinite f a b
+  else compare (sintOf f a) (sintOf f b)
 
 def unordered (f : Fmt) (a b : Nat) : Bool := isNaN f a || isNaN f b
 def feq (f : Fmt) (a b : Nat) : Bool := !unordered f a b && cmp f a b == .eq
@@ -210,7 +185,7 @@ def fgeq (f : Fmt) (a b : Nat) : Bool := fleq f b a
 def cvt (src dst : Fmt) (rm : RM) (a : Nat) : Nat :=
   if isNaN src a then dst.nanBits
   else if isInf src a then mkBits dst (signOf src a) dst.infMag
-  else roundDyadic dst rm (signOf src a) (sigOf src (magOf src a)) (expOf src (magOf src a))
+  else roundS dst rm (signOf src a) (sval src (magOf src a) * 2 ^ dst.q) (2 ^ src.q)
 
 /-- `(_ to_fp eb sb) rm (x : signed bit-vector of width w)`; `v` is the unsigned value of the bit pattern -/
 def ofSBV (f : Fmt) (rm : RM) (w v : Nat) : Nat :=
@@ -220,18 +195,15 @@ def ofSBV (f : Fmt) (rm : RM) (w v : Nat) : Nat :=
 /-- `(_ to_fp_unsigned eb sb) rm x` -/
 def ofUBV (f : Fmt) (rm : RM) (w v : Nat) : Nat := roundRat f rm false (v % 2 ^ w) 1
 
-/-- round a finite float to an integer (`fp.roundToIntegral` as an exact integer) -/
+/-- magnitude of a finite float rounded to an integer (`fp.roundToIntegral` as an exact integer) -/
+def toIntegralMag (f : Fmt) (rm : RM) (neg : Bool) (mag : Nat) : Nat :=
+  let dd := 2 ^ f.q
+  let q := sval f mag / dd
+  if roundUp rm neg (q % 2 == 1) (sval f mag % dd) dd then q + 1 else q
+
 def toIntegral (f : Fmt) (rm : RM) (a : Nat) : Int :=
-  let neg := signOf f a
-  let m := sigOf f (magOf f a)
-  let e := expOf f (magOf f a)
-  let n : Nat :=
-    if e ≥ 0 then m * 2 ^ e.toNat
-    else
-      let dd := 2 ^ (-e).toNat
-      let q := m / dd
-      if roundUp rm neg (q % 2 == 1) (m % dd) dd then q + 1 else q
-  if neg then -(n : Int) else n
+  let n := toIntegralMag f rm (signOf f a) (magOf f a)
+  if signOf f a then -(n : Int) else n
 
 /-- `fp.to_sbv`: `none` where SMT-LIB leaves the result unspecified (NaN, infinity, out of range) -/
 def toSBV (f : Fmt) (rm : RM) (a : Nat) (w : Nat) : Option Nat :=
